@@ -359,8 +359,93 @@ def check_types(params):
     return out
 
 
-CASES = {k: safe("C04", f) for k, f in {"apply": check_apply, "pairs": check_pairs,
-                                        "types": check_types}.items()}
+def check_sumimage(params):
+    """Functors whose arrow map sends boxes to *formal sums* (two terms each): images of
+    composites, tensors and daggers are the composites, tensors and daggers of the images, as
+    sums with their terms in the order composition and tensor of sums define."""
+    cls = params["cls"]
+    k = build.kit(cls)
+    obmap = dict(zip(ATOMS[cls], [tuple(x) for x in params["ob"]]))
+
+    def ar_t(b):
+        D, C = k.ty(ref_ty_image(_atoms(b.dom), obmap)), k.ty(ref_ty_image(_atoms(b.cod), obmap))
+        return k.Box("F" + str(b.name) + "a", D, C) + k.Box("F" + str(b.name) + "b", D, C)
+    F = k.m.Functor(lambda t: k.ty(obmap[t.objects[0].name]), ar_t)
+    d, e = build.build(c02._norm(params["r1"])), build.build(c02._norm(params["r2"]))
+    out = []
+
+    def bad(kind, msg):
+        out.append((_sig(kind, params), "[%s functor ob=%s, boxes sent to two-term sums] d=%s e=%s: %s" % (cls, obmap, d, e, msg)))
+    Fd, Fe = F(d), F(e)
+    from discopy import cat
+    for v, src in ((Fd, d), (Fe, e)):
+        if ref.ty_key(v.dom) != build.atoms_key(ref_ty_image(_atoms(src.dom), obmap)) \
+                or ref.ty_key(v.cod) != build.atoms_key(ref_ty_image(_atoms(src.cod), obmap)):
+            bad("sum-domcod", "F(%s) : %s -> %s" % (src, v.dom, v.cod))
+            return out
+    if len(d) == 1 and (not isinstance(Fd, cat.Sum) or len(Fd.terms) != 2):
+        bad("sum-shape", "F(d) = %r is not the two-term sum the arrow map returned" % (Fd,))
+        return out
+    if not c02.same(F(d @ e), Fd @ Fe):
+        bad("sum-tensor", "F(d @ e) = %s but F(d) @ F(e) = %s" % (F(d @ e), Fd @ Fe))
+    if ref.ty_key(d.cod) == ref.ty_key(e.dom) and not c02.same(F(d >> e), Fd >> Fe):
+        bad("sum-then", "F(d >> e) = %s but F(d) >> F(e) = %s" % (F(d >> e), Fd >> Fe))
+    try:
+        if not c02.same(F(d[::-1]), Fd[::-1]):
+            bad("sum-dagger", "F(d[::-1]) = %s but F(d)[::-1] = %s" % (F(d[::-1]), Fd[::-1]))
+    except Exception as ex:  # noqa
+        bad("sum-dagger-raises", "%r" % (ex,))
+    return out
+
+
+def check_zoo(params):
+    """A functor given by total callables (every atom to two wires, every box to one box between
+    the image types) applied to every value of the box zoo of the free classes -- generic boxes,
+    swaps, cups, caps, grammar words with and without domains, composite subclasses."""
+    from mc import zoo
+    cls, expr = params["cls"], params["expr"]
+    v = zoo.value(cls, expr)
+    k = build.kit("monoidal" if cls == "monoidal" else "rigid")
+    obmap = {}
+
+    def img(name):
+        return obmap.setdefault(name, (str(name) + "1", str(name) + "2"))
+    F = k.m.Functor(lambda t: k.ty(img(t.objects[0].name)),
+                    lambda b: k.Box("F(%s)" % (b.name,), F(b.dom), F(b.cod)))
+    out = []
+
+    def bad(kind, msg):
+        out.append((_sig(kind, params), "[%s] %s under the doubling functor: %s" % (cls, expr, msg)))
+
+    def want(t):
+        for o in t.objects:
+            img(o.name)
+        return build.atoms_key(ref_ty_image(_atoms(t), obmap))
+    Fv = F(v)
+    if ref.ty_key(Fv.dom) != want(v.dom) or ref.ty_key(Fv.cod) != want(v.cod):
+        bad("zoo-domcod", "F(v) : %s -> %s, the images of dom and cod are %s -> %s" % (Fv.dom, Fv.cod, want(v.dom), want(v.cod)))
+        return out
+    if ref.ty_key(F(v.dom)) != want(v.dom) or ref.ty_key(F(v.cod)) != want(v.cod):
+        bad("zoo-type-image", "F(dom), F(cod) = %s, %s" % (F(v.dom), F(v.cod)))
+    errs = ref.scan(Fv)
+    if errs:
+        bad("zoo-illtyped", "F(v) ill-typed: %s" % errs[:2])
+        return out
+    try:
+        vd = v[::-1]
+    except TypeError:
+        return out
+    Fvd = F(vd)
+    if ref.ty_key(Fvd.dom) != want(v.cod) or ref.ty_key(Fvd.cod) != want(v.dom):
+        bad("zoo-dagger-domcod", "F(v[::-1]) : %s -> %s, expected %s -> %s" % (Fvd.dom, Fvd.cod, want(v.cod), want(v.dom)))
+        return out
+    if not (F(v >> vd) == Fv >> Fvd) or not (F(v @ vd) == Fv @ Fvd):
+        bad("zoo-composite", "F(v >> v[::-1]) or F(v @ v[::-1]) is not the composite / tensor of the images")
+    return out
+
+
+CASES = {k: safe("C04", f) for k, f in {"apply": check_apply, "pairs": check_pairs, "zoo": check_zoo,
+                                        "types": check_types, "sumimage": check_sumimage}.items()}
 
 
 def functors(cls, quick):
@@ -407,6 +492,12 @@ def run(ctx):
     ctx.assumptions = ["reference adjoint / nested cups computed in mc/c04.py",
                        "== on returned diagrams is trusted here (it is C03's subject)"]
     items = []
+    from mc import zoo
+    for cls in ("monoidal", "rigid", "pregroup"):
+        for e in zoo.entries(cls):
+            if "ubble" in e or "foliation" in e or "[Box(" in e or "PRO(" in e:
+                continue      # bubbles have no functorial image here; boxes that are diagrams are not boxes
+            items.append(("zoo", dict(cls=cls, expr=e)))
     for cls in ("cat", "monoidal", "rigid"):
         fs = list(functors(cls, ctx.quick))
         if cls == "cat":
@@ -419,9 +510,18 @@ def run(ctx):
                 ctx.cap_hit("rigid source diagrams of depth 2 every 3rd (depth <= 1 complete)")
         ctx.count("states", len(src))
         ctx.note("sizes", "%s: %d functors x %d diagrams" % (cls, len(fs), len(src)))
+        n_sum = 0
         for f in fs:
             for r in src:
                 items.append(("apply", dict(f, recipe=r)))
+            if cls != "cat" and f["ar_mode"] == 1 and f["supply"] in ("dict",):
+                n_sum += 1
+                if ctx.quick and n_sum % 4 != 1:
+                    continue        # sum-valued arrow maps for every 4th object map in the quick tier
+                Q = [r for r in src if len(r[2]) == 1 and r[2][0][0][0] == "box"]
+                for r1 in Q:
+                    for r2 in Q:
+                        items.append(("sumimage", dict(cls=cls, ob=f["ob"], r1=r1, r2=r2)))
             if cls != "cat":
                 items.append(("types", dict(f)))
                 P = [r for r in src if len(r[2]) <= 1][:: (3 if ctx.quick else 1)][:14]
